@@ -18,6 +18,7 @@ func init() { register("C19", c19) }
 // omitted) and the identity of the bound variable.
 func c19(c *Sexp) *Sexp {
 	rows := L()
+	required := L()
 	addr := map[uintptr]int{}
 	var walk func(cm *cobra.Command)
 	emit := func(cm *cobra.Command, f *pflag.Flag, pers bool) {
@@ -29,6 +30,11 @@ func c19(c *Sexp) *Sexp {
 		}
 		rows.List = append(rows.List, L(A(cm.CommandPath()), A(f.Name), A(f.Shorthand), A(f.Value.Type()),
 			A(f.DefValue), A(f.Value.String()), B(pers), I(id)))
+		// cobra marks a required option with this annotation: omitting it is then a usage error,
+		// whatever default the help text shows
+		if v, ok := f.Annotations[cobra.BashCompOneRequiredFlag]; ok && len(v) > 0 && v[0] == "true" {
+			required.List = append(required.List, L(A(cm.CommandPath()), A(f.Name), A(f.DefValue)))
+		}
 	}
 	walk = func(cm *cobra.Command) {
 		persistent := map[string]bool{}
@@ -46,5 +52,15 @@ func c19(c *Sexp) *Sexp {
 		}
 	}
 	walk(cmd.RootCmd)
-	return L(KV("flags", rows), KV("n", A(fmt.Sprintf("%d", len(rows.List)))))
+	// The root's PersistentPreRun runs before every command with the option values as parsed: with nothing
+	// given on the command line these are the defaults; what the commands then read must still be the
+	// documented defaults (except --seed, whose documented meaning of -1 is "take the clock").
+	after := L()
+	if c.Str("after") == "prerun" && cmd.RootCmd.PersistentPreRun != nil {
+		cmd.RootCmd.PersistentPreRun(cmd.RootCmd, []string{})
+		cmd.RootCmd.PersistentFlags().VisitAll(func(f *pflag.Flag) {
+			after.List = append(after.List, L(A(f.Name), A(f.DefValue), A(f.Value.String())))
+		})
+	}
+	return L(KV("flags", rows), KV("required", required), KV("afterprerun", after), KV("n", A(fmt.Sprintf("%d", len(rows.List)))))
 }
